@@ -6,6 +6,8 @@ mod exec_l4;
 mod exec_pb;
 mod gen_pb;
 mod vrfcheck;
+mod sched;
+mod exec_sched;
 mod faultdb;
 mod eval;
 mod gen_l1;
@@ -96,6 +98,12 @@ fn main() {
                 writeln!(o, "{obs}").unwrap();
             }
             o.flush().unwrap();
+            // traces of scheduled runs, for validation by the model (a second ops file)
+            if let Some(l1) = ex.l1.as_ref() {
+                if !l1.sched_traces.is_empty() {
+                    std::fs::write(format!("{outp}.traces"), l1.sched_traces.join("\n") + "\n").unwrap();
+                }
+            }
             // report: JSON with op/class distribution and oracle failures
             let mut r = String::from("{\"ops\":{");
             r.push_str(
